@@ -52,8 +52,8 @@ pub fn ls_check(id: &str) -> Option<LsCheck> {
                 len: (8, 70),
                 ..d
             },
-            quick: 6000,
-            thorough: 150_000,
+            quick: 24_000,
+            thorough: 400_000,
             rule: "lock-step cases (config x op sequence) on a parked cache with tight max_cost; non-trivial = the history contains an admission that needed >=1 eviction, or an admission after in-place updates/lowered max_cost had pushed the total over max_cost; distinct by hash of the whole case",
             nontrivial: |f| f.admissions_with_eviction > 0 || f.over_budget_then_admit > 0 || f.max_cost_lowered_then_admit > 0,
             assumptions: &["non-negative costs; cost + internal overhead does not overflow i64", "single-threaded interleavings of client ops with the processor's ready arms (real-thread schedules: stress engine)"],
@@ -74,8 +74,8 @@ pub fn ls_check(id: &str) -> Option<LsCheck> {
                 validators: vec![Validator::Always, Validator::Always, Validator::TagGe],
                 ..d
             },
-            quick: 6000,
-            thorough: 150_000,
+            quick: 24_000,
+            thorough: 400_000,
             rule: "lock-step cases with removes, clears, evictions, expiries and in-place get_mut writes; non-trivial = a lookup of a key that was removed/evicted/expired/cleared earlier and written again; distinct by case hash",
             nontrivial: |f| f.lookup_after_rewrite > 0,
             assumptions: &["'had taken effect' is read as: the remove's Delete item / the clear was applied by the processor"],
@@ -102,8 +102,8 @@ pub fn ls_check(id: &str) -> Option<LsCheck> {
                 }),
                 ..d
             },
-            quick: 6000,
-            thorough: 150_000,
+            quick: 24_000,
+            thorough: 400_000,
             rule: "quiescent lock-step cases under a virtual clock, ample capacity, TTLs from 1ns to 1h, advances aimed at second boundaries and deadlines +-1ns; non-trivial = a lookup within 1s of the key's deadline or within 1ns of a second boundary, or a TTL<->no-TTL re-insert followed by a cleanup tick; distinct by case hash",
             nontrivial: |f| f.ttl_boundary_lookups > 0 || f.ttl_switch_then_tick > 0,
             assumptions: &["time is the virtual clock served to SystemTime::now() (monotone)"],
@@ -125,8 +125,8 @@ pub fn ls_check(id: &str) -> Option<LsCheck> {
                 }),
                 ..d
             },
-            quick: 6000,
-            thorough: 150_000,
+            quick: 24_000,
+            thorough: 400_000,
             rule: "quiescent lock-step cases with max_cost 2^40 and a 64-slot buffer (never full); every key of the domain is looked up at the end; non-trivial = TTL<->no-TTL re-insert followed by a tick, or a TTL key re-used after clear(), or an update of a key that shares its expiry second with another key; distinct by case hash",
             nontrivial: |f| f.ttl_switch_then_tick > 0 || f.key_reused_after_clear > 0 || f.shared_bucket_updates > 0,
             assumptions: &["quiescent histories only (the property has no schedule quantifier)"],
@@ -152,8 +152,8 @@ pub fn ls_check(id: &str) -> Option<LsCheck> {
                 }),
                 ..d
             },
-            quick: 5000,
-            thorough: 100_000,
+            quick: 20_000,
+            thorough: 300_000,
             rule: "quiescent lock-step cases with a periodic cleanup (interval 100ms..3s, generated phase) fired on the virtual time line; non-trivial = something was reclaimed and (an update of a key sharing its expiry second with another, or interval > 1s, or a deadline within 1ms of a second boundary); distinct by case hash",
             nontrivial: |f| f.reclaimed > 0 && (f.shared_bucket_updates > 0 || f.long_tick_period || f.boundary_deadlines > 0),
             assumptions: &["'bounded delay' is checked as: gone after the first periodic tick at or after deadline + 1s"],
@@ -174,8 +174,8 @@ pub fn ls_check(id: &str) -> Option<LsCheck> {
                 }),
                 ..d
             },
-            quick: 6000,
-            thorough: 150_000,
+            quick: 24_000,
+            thorough: 400_000,
             rule: "schedule-mode lock-step cases (processor arms fire only where generated); non-trivial = a remove, update or clear() hit a key with work still buffered; distinct by case hash",
             nontrivial: |f| f.removes_inflight > 0 || f.updates_inflight > 0 || f.clears_with_pending > 0 || f.interposed_same_key > 0,
             assumptions: &["keys have distinct index hashes", "operations that returned Err void the case from that point (precondition of the property)"],
@@ -196,8 +196,8 @@ pub fn ls_check(id: &str) -> Option<LsCheck> {
                 }),
                 ..d
             },
-            quick: 6000,
-            thorough: 150_000,
+            quick: 24_000,
+            thorough: 400_000,
             rule: "lock-step cases with uniquely tagged values and a recording callback; non-trivial = >=1 eviction or rejection and >=1 update/remove of a key with work in flight; distinct by case hash",
             nontrivial: |f| (f.admissions_with_eviction + f.pop_rejections + f.dup_new_rejections + f.oversize_rejections) > 0 && (f.updates_inflight + f.removes_inflight) > 0,
             assumptions: &["get_mut writes are excluded (they overwrite a value in place)", "values accepted before a clear() may be dropped without callback, never reported twice"],
@@ -216,8 +216,8 @@ pub fn ls_check(id: &str) -> Option<LsCheck> {
                 }),
                 ..d
             },
-            quick: 6000,
-            thorough: 150_000,
+            quick: 24_000,
+            thorough: 400_000,
             rule: "lock-step cases over a family of validators (always, never, tag>=, even tag, tag differs); non-trivial = insert_if_present on a key that is absent because it was removed/expired/evicted or is only buffered, or a vetoed insert involving a TTL; distinct by case hash",
             nontrivial: |f| f.iip_absent_interesting > 0 || f.vetoes_ttl > 0,
             assumptions: &["an expired but not yet reclaimed entry counts as physically resident (both outcomes are accepted by the property; the model follows the implementation)"],
@@ -238,8 +238,8 @@ pub fn ls_check(id: &str) -> Option<LsCheck> {
                 }),
                 ..d
             },
-            quick: 5000,
-            thorough: 120_000,
+            quick: 6_000,
+            thorough: 150_000,
             rule: "schedule-mode lock-step cases in which the real wait() runs (sync: on a helper thread while the interpreter steps the parked processor; async: polled) with work still buffered; wait() Ok must imply that every earlier item was applied (the model then predicts every later lookup and charge exactly); non-trivial = a wait() issued with >=1 item pending; distinct by case hash",
             nontrivial: |f| f.waits_with_pending > 0,
             assumptions: &["one client thread in this engine; races with clear()/close(): stress engine"],
@@ -261,8 +261,8 @@ pub fn ls_check(id: &str) -> Option<LsCheck> {
                 }),
                 ..d
             },
-            quick: 6000,
-            thorough: 150_000,
+            quick: 24_000,
+            thorough: 400_000,
             rule: "lock-step cases with frequent clear(); non-trivial = clear() called with >=1 item still buffered, or a TTL key re-used after the clear; distinct by case hash",
             nontrivial: |f| f.clears_with_pending > 0 || f.ttl_key_reused_after_clear > 0 || f.interposed > 0,
             assumptions: &["one client thread; concurrent clients: stress engine"],
@@ -287,8 +287,8 @@ pub fn ls_check(id: &str) -> Option<LsCheck> {
                 len: (10, 90),
                 ..d
             },
-            quick: 5000,
-            thorough: 120_000,
+            quick: 16_000,
+            thorough: 300_000,
             rule: "lock-step cases with a parked policy worker, buffer_items in {0,1,2,3,5,64}; non-trivial = >=1 flushed batch containing a missed key or >=1 dropped batch; distinct by case hash",
             nontrivial: |f| f.batches_with_miss > 0 || f.batches_dropped > 0,
             assumptions: &["sync: a batch is dropped iff 3 batches are already queued; async: never while open"],
@@ -307,8 +307,8 @@ pub fn ls_check(id: &str) -> Option<LsCheck> {
                 }),
                 ..d
             },
-            quick: 6000,
-            thorough: 150_000,
+            quick: 24_000,
+            thorough: 400_000,
             rule: "quiescent lock-step cases, explicit and Coster-valued (cost 0) writes, both settings of ignore_internal_cost; non-trivial = an update of a resident key that changes its charge, or a Coster-valued write; distinct by case hash",
             nontrivial: |f| f.cost_changing_updates > 0 || f.coster_writes > 0,
             assumptions: &["default (always) validator"],
@@ -328,8 +328,8 @@ pub fn ls_check(id: &str) -> Option<LsCheck> {
                 }),
                 ..d
             },
-            quick: 6000,
-            thorough: 150_000,
+            quick: 24_000,
+            thorough: 400_000,
             rule: "lock-step cases with metrics on; non-trivial = (>=1 eviction and >=1 cost-decreasing update) or >=1 dropped set; distinct by case hash",
             nontrivial: |f| (f.admissions_with_eviction > 0 && f.cost_decreasing_updates > 0) || f.dropped_sets > 0,
             assumptions: &["counters compared at every step in the parked engine (every step is a quiescent point of the stripes)"],
@@ -353,8 +353,8 @@ pub fn ls_check(id: &str) -> Option<LsCheck> {
                 getmut_write: true,
                 ..d
             },
-            quick: 6000,
-            thorough: 150_000,
+            quick: 24_000,
+            thorough: 400_000,
             rule: "lock-step cases whose key builder maps pairs of keys to one index hash with distinct non-zero conflict hashes; non-trivial = an operation on one member of a pair while the other is resident; distinct by case hash",
             nontrivial: |f| f.collide_ops_while_partner_resident > 0,
             assumptions: &["only what the property states: lookups/inserts/removes of one key never read, overwrite or remove the other's value (charge bookkeeping of colliding keys is not part of the property)"],
@@ -638,14 +638,14 @@ pub struct CompPart {
 
 pub fn comp_parts(id: &str) -> Vec<CompPart> {
     match id {
-        "C07" => vec![CompPart { engine: "policy", quick: 40_000, thorough: 1_500_000 }],
+        "C07" => vec![CompPart { engine: "policy", quick: 200_000, thorough: 4_000_000 }],
         "C13" => vec![
-            CompPart { engine: "sketch", quick: 20_000, thorough: 600_000 },
-            CompPart { engine: "tiny", quick: 20_000, thorough: 600_000 },
+            CompPart { engine: "sketch", quick: 100_000, thorough: 2_000_000 },
+            CompPart { engine: "tiny", quick: 100_000, thorough: 2_000_000 },
         ],
-        "C14" => vec![CompPart { engine: "bloom", quick: 12_000, thorough: 300_000 }],
-        "C18" => vec![CompPart { engine: "keys", quick: 20_000, thorough: 400_000 }],
-        "C17" => vec![CompPart { engine: "hist", quick: 20_000, thorough: 400_000 }],
+        "C14" => vec![CompPart { engine: "bloom", quick: 60_000, thorough: 1_000_000 }],
+        "C18" => vec![CompPart { engine: "keys", quick: 60_000, thorough: 1_000_000 }],
+        "C17" => vec![CompPart { engine: "hist", quick: 60_000, thorough: 1_000_000 }],
         _ => vec![],
     }
 }
@@ -713,16 +713,18 @@ pub struct StressPart {
 pub fn stress_parts(id: &str) -> Vec<StressPart> {
     let p = |kind, quick, thorough, async_pct| StressPart { kind, quick, thorough, async_pct };
     match id {
-        "C01" | "C02" | "C06" | "C08" | "C17" => vec![p(Kind::Invariants, 240, 6000, 25)],
-        "C10" => vec![p(Kind::Barrier, 320, 8000, 25), p(Kind::WaitRace, 320, 8000, 25)],
-        "C12" => vec![p(Kind::Close, 400, 10000, 30)],
-        "C20" => vec![p(Kind::Config, 480, 12000, 30)],
+        "C01" | "C02" | "C06" | "C08" | "C17" => vec![p(Kind::Invariants, 640, 12000, 25)],
+        "C05" => vec![p(Kind::Reclaim, 96, 2000, 50)],
+        "C10" => vec![p(Kind::Barrier, 640, 12000, 25), p(Kind::WaitRace, 640, 12000, 25)],
+        "C12" => vec![p(Kind::Close, 960, 16000, 30)],
+        "C20" => vec![p(Kind::Config, 960, 16000, 30)],
         "C19" => vec![
-            p(Kind::Invariants, 160, 4000, 100),
-            p(Kind::Barrier, 120, 3000, 100),
-            p(Kind::WaitRace, 120, 3000, 100),
-            p(Kind::Close, 160, 4000, 100),
-            p(Kind::Config, 160, 4000, 100),
+            p(Kind::Invariants, 320, 6000, 100),
+            p(Kind::Barrier, 240, 5000, 100),
+            p(Kind::WaitRace, 320, 6000, 100),
+            p(Kind::Close, 640, 10000, 100),
+            p(Kind::Config, 320, 6000, 100),
+            p(Kind::Reclaim, 96, 2000, 100),
         ],
         _ => vec![],
     }
@@ -801,7 +803,9 @@ pub fn run_stress_part(prop: &str, part: &StressPart, tier: &str, seed: u64, sta
             }
             "violation" | "hang" => {
                 stats.case(hash_of(case), true, || json!({"engine": "stress", "case": case}));
-                if !r.props.iter().any(|p| p == prop) {
+                // C19: the async flavour must satisfy every property on every executor
+                let relevant = r.props.iter().any(|p| p == prop) || (prop == "C19" && case.exec.is_async());
+                if !relevant {
                     *stats.other_pred_failures.lock().entry(r.pred.clone()).or_insert(0) += 1;
                     return true;
                 }
